@@ -162,6 +162,24 @@ pub fn bech32_encode_v(hrp: &str, payload: &[u8], variant: Variant) -> String {
     s
 }
 
+/// Encode raw 5-bit groups (each < 32) under `hrp` with a valid bech32 checksum — also groups that do not
+/// regroup into whole bytes (used for hostile inputs).
+pub fn bech32_encode_5bit(hrp: &str, data: &[u8]) -> String {
+    let mut values = hrp_expand(hrp);
+    values.extend_from_slice(data);
+    values.extend_from_slice(&[0u8; 6]);
+    let pm = polymod(&values) ^ BECH32_CONST;
+    let mut s = String::from(hrp);
+    s.push('1');
+    for d in data {
+        s.push(CHARSET[(*d & 31) as usize] as char);
+    }
+    for i in 0..6 {
+        s.push(CHARSET[((pm >> (5 * (5 - i))) & 31) as usize] as char);
+    }
+    s
+}
+
 pub fn bech32_encode(hrp: &str, payload: &[u8]) -> String {
     bech32_encode_v(hrp, payload, Variant::Bech32)
 }
